@@ -3099,7 +3099,10 @@ def update_working_tree(
                             f"Please commit your changes or stash them before you switch branches."
                         )
 
-    # Apply the changes
+    # Apply the changes: all removals first, so that a directory whose files
+    # go away can be replaced by a file of the same name ("a/b" deleted, "a"
+    # added: the changes are sorted by path and "a" comes first), then the
+    # additions and modifications.
     for change in changes:
         if change.type in (CHANGE_DELETE, CHANGE_RENAME):
             # Remove file/directory
@@ -3131,6 +3134,7 @@ def update_working_tree(
 
             _transition_to_absent(repo, path, full_path, delete_stat, index)
 
+    for change in changes:
         if change.type in (
             CHANGE_ADD,
             CHANGE_MODIFY,
